@@ -985,6 +985,7 @@ impl Scenario for C11 {
             _ => rng.range(4, 5),
         };
         let budget = match rng.below(12) {
+            _ if crate::runner::small() => *rng.pick(&[4usize, 10, 24]),
             0 => 600,
             1 | 2 => 150,
             3..=6 => 40,
@@ -1022,7 +1023,7 @@ impl Scenario for C11 {
                 rng.bytes(n)
             }
         };
-        let enumerate = run % 4 == 0 && total <= 200;
+        let enumerate = run % 4 == 0 && total <= if crate::runner::small() { 24 } else { 200 };
         // faults biased to interesting places: first/last byte of a message, message boundary
         let mut ends = Vec::new();
         let mut acc = 0;
